@@ -307,6 +307,16 @@ def run_scenario(scenario, _unused):
         o = dict(req.options)
         if lang:
             o["language"] = lang
+        if shared.get("permute"):
+            # an equal options mapping whose entries were inserted in another order
+            full = ffcx.options.get_options(o)
+            items = list(full.items())
+            k = shared["permute"] % max(1, len(items))
+            full = dict(items[k:][::-1] + items[:k])
+            if not shared["on"]:
+                return full
+            key = json.dumps(o, sort_keys=True, default=lambda x: f"{type(x).__module__}.{type(x).__name__}:{x!r}")
+            return shared["maps"].setdefault(key, full)
         if not shared["on"]:
             return ffcx.options.get_options(o)
         # (type and repr: np.dtype("float32") and "float32" are different option values)
@@ -365,6 +375,8 @@ def run_scenario(scenario, _unused):
             )
         elif kind == "share_options":
             shared["on"] = bool(op[1])
+        elif kind == "permute_options":
+            shared["permute"] = int(op[1])
         elif kind == "cfgfile":
             # options delivered through $PWD/ffcx_options.json (read once per process)
             d = tempfile.mkdtemp(prefix="cfg-", dir=scratch)
